@@ -42,8 +42,11 @@ REQUIRED = {"injections_no_edit": 2000, "label_bound_checks": 2000, "uod_finaliz
             "injections_while_paused_or_held": 20}
 
 ALLOW = ("mark", "uod", "wait", "block", "watch", "alarm", "macro", "thr", "blank", "pausehold", "counter", "info", "sim")
-INJ_CMDS = ("Other", "Mode")
+INJ_CMDS = ("Other", "Mode", "Drive1")   # rig commands the generated methods never use
 LONG_N = 4
+# exec iteration numbers each injected command must show, and the ticks it needs beyond the snippet's own bound
+CMD_WANT = {"Other": list(range(0, LONG_N + 1)), "Drive1": list(range(0, LONG_N + 5)), "Mode": [0]}
+CMD_EXTRA = {"Other": LONG_N + 2, "Drive1": LONG_N + 6, "Mode": LONG_N + 2}
 
 
 def plan(tier, seed):
@@ -53,27 +56,56 @@ def plan(tier, seed):
              "max_depth": 3 if tier == "quick" else 4} for i in range(shards)]
 
 
-def snippet(rnd: random.Random, tag: str) -> dict:
-    kind = rnd.choice(["mark", "mark2", "long", "long_mark", "short", "wait_mark", "block", "mixed", "mark", "long_mark"])
+SNIPPET_KINDS = ["mark", "mark2", "long", "long_mark", "short", "wait_mark", "block", "mixed", "mark", "long_mark"]
+
+
+def snippet(rnd: random.Random, tag: str, kind: str | None = None, long_cmd: str = "Other", short_cmd: str = "Mode") -> dict:
+    """long_cmd / short_cmd: several snippets alive in one run must not share a command name (same-name commands cancel
+    each other by design)."""
+    if kind is None:
+        kind = rnd.choice(SNIPPET_KINDS)
     a, b = f"j{tag}a", f"j{tag}b"
     if kind == "mark":
         code, labels, cmds, waits = f"Mark: {a}", [a], [], 0
     elif kind == "mark2":
         code, labels, cmds, waits = f"Mark: {a}\nMark: {b}", [a, b], [], 0
     elif kind == "long":
-        code, labels, cmds, waits = "Other", [], ["Other"], 0
+        code, labels, cmds, waits = long_cmd, [], [long_cmd], 0
     elif kind == "long_mark":
-        code, labels, cmds, waits = f"Other\nMark: {a}", [a], ["Other"], 0
+        code, labels, cmds, waits = f"{long_cmd}\nMark: {a}", [a], [long_cmd], 0
     elif kind == "short":
-        code, labels, cmds, waits = f"Mode: B\nMark: {a}", [a], ["Mode"], 0
+        code, labels, cmds, waits = f"{short_cmd}: B\nMark: {a}", [a], [short_cmd], 0
     elif kind == "wait_mark":
         code, labels, cmds, waits = f"Wait: 0.3s\nMark: {a}", [a], [], 3
     elif kind == "block":
         code, labels, cmds, waits = f"Block: jblk\n    Mark: {a}\n    End block\nMark: {b}", [a, b], [], 0
     else:
-        code, labels, cmds, waits = f"Mark: {a}\nWait: 0.2s\nOther\nMark: {b}", [a, b], ["Other"], 2
+        code, labels, cmds, waits = f"Mark: {a}\nWait: 0.2s\n{long_cmd}\nMark: {b}", [a, b], [long_cmd], 2
     nlines = code.count("\n") + 1
     return {"kind": kind, "code": code, "labels": labels, "cmds": cmds, "K": 4 + 3 * nlines + waits}
+
+
+def multi_snippets(rnd: random.Random, tag: str) -> tuple[list[dict], list[int]]:
+    """2-3 snippets for one run with unique labels and pairwise different command names, plus the gaps (in engine ticks)
+    between consecutive injections. At most one Block snippet (injected blocks compete for the block lock by design)."""
+    n = rnd.choice([2, 2, 3])
+    longs, shorts = ["Other", "Drive1"], ["Mode"]
+    rnd.shuffle(longs)
+    sns, have_block = [], False
+    for i in range(n):
+        kind = rnd.choice(SNIPPET_KINDS)
+        if kind == "block" and have_block:
+            kind = "mark2"
+        if kind in ("long", "long_mark", "mixed") and not longs:
+            kind = {"long": "mark", "long_mark": "mark2", "mixed": "wait_mark"}[kind]
+        if kind == "short" and not shorts:
+            kind = "mark2"
+        have_block = have_block or kind == "block"
+        lc = longs.pop() if kind in ("long", "long_mark", "mixed") else "Other"
+        sc = shorts.pop() if kind == "short" else "Mode"
+        sns.append(snippet(rnd, f"{tag}{'xyz'[i]}", kind=kind, long_cmd=lc, short_cmd=sc))
+    gaps = [rnd.choice([0, 0, 1, 1, 2, 2, 3, 4]) for _ in range(n - 1)]
+    return sns, gaps
 
 
 def gen_case(rnd: random.Random, step: int, max_depth: int) -> dict:
@@ -85,8 +117,9 @@ def gen_case(rnd: random.Random, step: int, max_depth: int) -> dict:
 
 
 # ------------------------------------------------------------------------------------------------ one run
-def run_once(text: str, traj, ticks: int, inject=None, edit=None):
-    """inject = (after_tick, code); edit = (after_tick, [(id, content)...]). Returns a record dict."""
+def run_once(text: str, traj, ticks: int, inject=None, edit=None, user=None):
+    """inject = (after_tick, code) or a list of such (applied in list order); edit = (after_tick, [(id, content)...]);
+    user = [(after_tick, command name), ...] issued before the injections of that tick. Returns a record dict."""
     from opv.rigs import engine_rig as R
     from opv.rigs import liveedit_rig as L
     from openpectus.lang.exec.errors import MethodEditError
@@ -94,20 +127,31 @@ def run_once(text: str, traj, ticks: int, inject=None, edit=None):
     rig = R.EngineRig(text, long_n=LONG_N)
     L.reset_interp_counter()
     rec = {"marks_at": [], "iticks_at": [], "state_at": [], "locked_at": [], "inject_itick": None, "edit_result": None,
-           "inject_error": None, "inject_state": None, "edit_tick": None}
+           "inject_error": None, "inject_state": None, "edit_tick": None, "injections": [], "user": []}
+    injs = [] if inject is None else [inject] if isinstance(inject[0], int) else list(inject)
     try:
         rig.start()
         for k in range(ticks):
             # rig.k ticks have been done
-            if inject is not None and rig.k == inject[0]:
-                rec["inject_state"] = rig.state
-                rec["inject_itick"] = L.ITICKS[0]
-                rec["inject_ms"] = L.state_sets(rig.e.method_manager.get_method_state())
-                rec["inject_nlines"] = len(L.method_lines(rig))
+            for ut, name in (user or ()):
+                if rig.k == ut:
+                    rec["user"].append((ut, name, rig.state, rig.user(name)))
+            for n_inj, (it, code) in enumerate(injs):
+                if rig.k != it:
+                    continue
+                one = {"t": it, "state": rig.state, "itick": L.ITICKS[0], "error": None}
+                if n_inj == 0:
+                    rec["inject_state"] = rig.state
+                    rec["inject_itick"] = L.ITICKS[0]
+                    rec["inject_ms"] = L.state_sets(rig.e.method_manager.get_method_state())
+                    rec["inject_nlines"] = len(L.method_lines(rig))
                 try:
-                    rig.e.inject_code(inject[1])
+                    rig.e.inject_code(code)
                 except Exception as ex:
-                    rec["inject_error"] = f"{type(ex).__name__}: {ex}"[:300]
+                    one["error"] = f"{type(ex).__name__}: {ex}"[:300]
+                    if n_inj == 0:
+                        rec["inject_error"] = one["error"]
+                rec["injections"].append(one)
             if edit is not None and rig.k == edit[0]:
                 rec["edit_tick"] = rig.k
                 rec["edit_itick"] = L.ITICKS[0]
@@ -219,6 +263,164 @@ def untimed(ev, marks, cmds, repeatable):
     return starts, compl, rep_started, Counter(marks[-1] if marks else ())
 
 
+def injected_ids_shared(rec) -> bool:
+    """Causal shape of 'injected snippets are numbered independently': two different node objects with the same
+    (negative) injected node id changed state in one run."""
+    objs: dict = {}
+    for e in rec["trace"]:
+        if _neg(e[2]) and e[3] not in ("InjectedNode", "NullNode"):
+            objs.setdefault(e[2], set()).add((e[6], e[3]))
+    return any(len(v) > 1 for v in objs.values())
+
+
+def check_multi(case, pt, ref, ref_part, method_ids, H, res: Result, viol):
+    """One run with 2-3 injected snippets alive at the same time. Every snippet is judged by the statement on its own:
+    labels exactly once within the bound (counted from its own injection; the bounds of the snippets injected before
+    it are added, so that an engine that runs injected snippets one after the other is not blamed), its UOD command
+    initialised once, run to completion, finalised; never twice; the method-line part equals the reference run."""
+    text, traj = case["text"], case["traj"]
+    sub = dict(case, only=pt)
+    m = pt["multi"]
+    sns = m["sns"]
+    ts = [pt["t"]]
+    for g in m["gaps"]:
+        ts.append(ts[-1] + g)
+    hold = m.get("hold")
+    user = None
+    if hold and pt["t"] - hold["lead"] >= 2:
+        user = [(pt["t"] - hold["lead"], hold["cmd"]), (ts[-1] + hold["release"], "Un" + hold["cmd"].lower())]
+        # the reference for this run has the same user commands and no injection
+        ref = run_once(text, traj, H, user=user)
+        if ref["errors"] or ref["tick_exc"] or len(ref["user"]) != 2 or not all(u[3] for u in ref["user"]):
+            res.count("multi_hold_window_not_applicable")
+            return
+        ref_part = method_part(ref, method_ids)
+    rec = run_once(text, traj, H, inject=[(t, sn["code"]) for t, sn in zip(ts, sns)], user=user)
+    inj = rec["injections"]
+    if len(inj) < len(sns):
+        res.count("injection_point_not_reached")
+        return
+    if any(i["state"] in ("Stopped", "Restarting") for i in inj):
+        res.count("injection_while_stopped_skipped")
+        return
+    desc = (f"{len(sns)} snippets injected at ticks {ts} ({[sn['kind'] for sn in sns]}, states "
+            f"{[i['state'] for i in inj]}" + (f", user {user}" if user else "") + ")")
+    if any(i["error"] for i in inj):
+        viol.append((None, f"{desc}: inject_code raised for a well-formed snippet: {[i['error'] for i in inj]}", sub))
+        return
+    if rec["tick_exc"]:
+        viol.append((None, f"{desc}: Engine.tick raised: {rec['tick_exc'][0]}", sub))
+        return
+    if user and [u[1:] for u in rec["user"]] != [u[1:] for u in ref["user"]]:
+        viol.append((None, f"{desc}: user commands answered differently than in the run without injections: "
+                           f"{rec['user']} vs {ref['user']}", sub))
+        return
+    res.count("multi_injection_runs")
+    res.count("multi_injected_snippets", len(sns))
+    if user:
+        res.count("multi_runs_in_user_hold_or_pause_window")
+    paused = [i["state"] in ("Paused", "Holding") for i in inj]
+    if any(paused[1:]):
+        res.count("multi_later_snippet_injected_while_paused_or_held")
+    shared = injected_ids_shared(rec)
+    final_marks = rec["marks_at"][-1]
+    have_block = any(sn["kind"] == "block" for sn in sns)
+    any_contention = False
+    overlapped = False
+    Kc = Kcmd_extra = 0
+    for i, (t, sn) in enumerate(zip(ts, sns)):
+        it0 = inj[i]["itick"]
+        Kc += sn["K"]
+        Kcmd_extra += max([CMD_EXTRA[c] for c in sn["cmds"]] or [0])
+        # was an earlier snippet still unfinished when this one arrived? (marks_at index 0 = tick 2)
+        if i > 0:
+            before = rec["marks_at"][t - 2] if t >= 2 else ()
+            for tj, sj in list(zip(ts, sns))[:i]:
+                if any(before.count(lab) != 1 for lab in sj["labels"]) or any(
+                        not any(c[2] == name and c[1] == "fin" and tj < c[0] <= t for c in rec["cmdlog"]) for name in sj["cmds"]):
+                    overlapped = True
+        who = f"snippet #{i + 1} ({sn['kind']}, injected at tick {t}, state {inj[i]['state']})"
+        twice = [lab for lab in sn["labels"] if final_marks.count(lab) >= 2]
+        if twice:
+            viol.append(("C14.injected_snippets_share_node_ids" if shared else "C14.injected_label_twice",
+                         f"{desc}: {who}: label(s) {twice} appended more than once: {final_marks}", sub))
+        deadline_idx = next((k for k, v in enumerate(rec["iticks_at"]) if v - it0 >= Kc), None)
+        cmd_deadline_idx = next((k for k, v in enumerate(rec["iticks_at"]) if v - it0 >= Kc + Kcmd_extra), None)
+        contention = sn["kind"] == "block" and any(
+            rec["locked_at"][k] > 0 for k in range(max(0, t - 2), min(len(rec["locked_at"]), (deadline_idx or 0) + 1)))
+        any_contention = any_contention or contention
+        if deadline_idx is None:
+            res.count("bound_not_reached_in_horizon")
+        elif contention:
+            res.count("bound_ambiguous_block_lock_contention")
+        else:
+            res.count("multi_label_bound_checks")
+            at = rec["marks_at"][deadline_idx]
+            missing = [lab for lab in sn["labels"] if at.count(lab) != 1]
+            if missing:
+                viol.append(("C14.injected_snippets_share_node_ids" if shared else "C14.injected_label_not_once_within_bound",
+                             f"{desc}: {who}: label(s) {missing} not exactly once after {Kc} interpreter ticks; marks then: "
+                             f"{at}", sub))
+        if sn["cmds"] and cmd_deadline_idx is not None and not contention:
+            res.count("multi_uod_finalize_checks")
+            upto = cmd_deadline_idx + 2
+            probs = []
+            for name in sn["cmds"]:
+                log = [c for c in rec["cmdlog"] if c[2] == name and c[0] > t]
+                inits = [c for c in log if c[1] == "init"]
+                fins = [c for c in log if c[1] == "fin"]
+                execs = [c[4] for c in log if c[1] == "exec"]
+                if len(inits) != 1:
+                    probs.append(f"{name}: {len(inits)} init")
+                elif len(fins) != 1 or fins[0][0] > upto:
+                    probs.append(f"{name}: {len(fins)} finalize" + (f" (at tick {fins[0][0]} > {upto})" if fins else ""))
+                elif execs != CMD_WANT[name]:
+                    probs.append(f"{name}: exec iterations {execs} != {CMD_WANT[name]}")
+                elif fins[0][3] != inits[0][3]:
+                    probs.append(f"{name}: finalize on another instance than init")
+                if name in rec["instances"]:
+                    probs.append(f"{name}: instance still registered at the end")
+            if probs:
+                viol.append(("C14.injected_snippets_share_node_ids" if shared else "C14.injected_command_not_completed",
+                             f"{desc}: {who}: " + "; ".join(probs), sub))
+    if overlapped:
+        res.count("multi_runs_with_overlapping_lifetimes")
+    # ---------------- differential on the method-line part
+    got = method_part(rec, method_ids)
+    if rec["errors"]:
+        viol.append(("C14.injected_snippets_share_node_ids" if shared else "C14.injection_caused_method_error",
+                     f"{desc}: run paused by {rec['errors'][0]} although the reference run has no error", sub))
+    elif got == ref_part:
+        res.count("multi_differential_exact_equal")
+    else:
+        res.count("differential_timing_differs")
+        res.count("differential_timing_differs_multi")
+        if any_contention or (have_block and ref["method_has_block"]):
+            res.count("differential_ambiguous_block_lock_contention")
+        else:
+            rep = ref["repeatable_ids"]
+            a = untimed(ref_part[0], ref_part[1], ref_part[2], rep)
+            b = untimed(got[0], got[1], got[2], rep)
+            if a != b or ref_part[3] != got[3]:
+                what = "starts" if a[0] != b[0] else "completions" if a[1] != b[1] else \
+                    "repeatable lines reached" if a[2] != b[2] else "marks" if a[3] != b[3] else "final method state"
+                viol.append(("C14.injected_snippets_share_node_ids" if shared else "C14.method_lines_changed_by_injection",
+                             f"{desc}: method-line {what} differ from the reference run (ref marks {ref_part[1][-1]}, got "
+                             f"{got[1][-1]}; ref state {sorted(map(sorted, ref_part[3]))} got "
+                             f"{sorted(map(sorted, got[3]))})"[:900], sub))
+            else:
+                res.count("differential_equal_untimed")
+    st, ex, fl = rec["inject_ms"]
+    progress = len((st | ex | fl) - {"root"})
+    nontrivial = (0 < progress < rec["inject_nlines"]) or any(paused)
+    phase = "early" if progress <= 1 else "late" if progress >= rec["inject_nlines"] - 1 else "mid"
+    key = (shape_hash(text), "multi", tuple(sn["kind"] for sn in sns), tuple(m["gaps"]), phase, tuple(paused),
+           hold["cmd"] if user else None) if nontrivial else None
+    res.count("interp_ticks_counted", rec["iticks_at"][-1] if rec["iticks_at"] else 0)
+    res.case(key, sample={"method": text, "inject_ticks": ts, "snippets": [sn["code"] for sn in sns], "user": user,
+                          "states_at_injection": [i["state"] for i in inj], "marks": list(final_marks)[:16]})
+
+
 # ------------------------------------------------------------------------------------------------ monitor
 def check_case(case: dict, res: Result):
     text, traj = case["text"], case["traj"]
@@ -243,11 +445,22 @@ def check_case(case: dict, res: Result):
         n = 0
         while t <= q + 3:
             sn = snippet(rnd, str(n))
-            d = rnd.choice([None, None, None, None, None, None, 0, 1, 2, 3, 4, 6])
-            points.append({"t": t, "sn": sn, "edit_delay": d})
+            d = rnd.choice([None, None, None, None, "multi", "multi", 0, 1, 2, 3, 4, 6])
+            if d == "multi":
+                # 2-3 snippets whose lifetimes overlap; sometimes inside a Hold / Pause window opened by the user
+                sns, gaps = multi_snippets(rnd, str(n))
+                hold = None
+                if rnd.random() < 0.25:
+                    hold = {"cmd": rnd.choice(["Hold", "Pause"]), "lead": rnd.choice([1, 2]), "release": rnd.choice([1, 2, 3, 5])}
+                points.append({"t": t, "multi": {"sns": sns, "gaps": gaps, "hold": hold}})
+            else:
+                points.append({"t": t, "sn": sn, "edit_delay": d})
             t += case["step"]
             n += 1
     for pt in points:
+        if "multi" in pt:
+            check_multi(case, pt, ref, ref_part, method_ids, H, res, viol)
+            continue
         t, sn, d = pt["t"], pt["sn"], pt["edit_delay"]
         sub = dict(case, only=pt)
         edit = None
